@@ -14,6 +14,12 @@ Two parts of the model deserve a word (see the header of Adapter.tla):
     a handler emits is one tree in logical order (derivation steps, then the record's attributes) and
     of several attributes with one key in one group instance the LAST is a must, earlier ones may be
     dropped (native rule) or kept ("all").  The catalogue contains colliding shapes on purpose.
+  * LOGVALUERS.  A shape is a tree of nodes [key, lv, g, k, v, kids]; lv = how many times LogValue() has
+    to be asked before the value (a leaf value or a group) appears.  Every node may be a LogValuer - a
+    leaf, a group, a member of a literal group, a member of a group a LogValuer resolved to, deeper -
+    in records, in WithAttrs lists, under WithGroup.  Expected = the leaves of the tree with every lv
+    set to 0 (what log/slog's own handlers print).  Adapter!ValuerCover makes TLC refuse a catalogue
+    that lacks one of the 16 positions; the run is Undecided unless all of them were really emitted.
   * THE LEVEL REGISTRY is process-wide: Register events are part of the behaviours; a behaviour that
     registers runs in a worker process of its own (the worker forks itself), "Proc" lines tell the
     monitor where a process starts.
@@ -31,61 +37,108 @@ A, NL = 97, 10
 
 NO_TREAT = 12
 WITNESSES = [("DerivedFresh", "KeepsConfig"), ("BridgeInverted", "BridgeGate"), ("EntryLogUnknownFatal", "NoTerminating"),
-             ("AttrsBehindRecord", "RecordWins"), ("RegRemapsStd", "StdIndependent"), ("RegErrDevOfTreated", "RegistryLocal")]
+             ("AttrsBehindRecord", "RecordWins"), ("RegRemapsStd", "StdIndependent"), ("RegErrDevOfTreated", "RegistryLocal"),
+             ("ResolveTopOnly", "RecordComplete AddsGiven"), ("ResolveOnce", "RecordComplete AddsGiven")]
+
+# where a LogValuer can sit (Adapter!ValuerClasses): what it resolves to, asked once or several times, and
+# top = element of the list, lit = member of literal groups only, val = member of a group a LogValuer
+# resolved to, val-lit = member of a literal group somewhere inside such a group
+VALUER_CLASSES = sorted("%s%s@%s" % (t, c, x) for t in ("leaf", "group") for c in ("", "-chain") for x in ("top", "lit", "val", "val-lit"))
 
 
 # ------------------------------------------------------------------ catalogues
 
-def L(key, kind, v):
-    """a leaf attribute"""
-    return (key, kind, v)
+def L(key, kind, v, lv=0):
+    """a leaf attribute; lv > 0: handed over as a LogValuer that has to be asked lv times"""
+    return dict(key=key, lv=lv, g=False, k=kind, v=v, kids=[])
 
 
-def G(key, *kids):
-    """a group attribute (one INSTANCE: two G("g", ..) in one list are two attributes with one key)"""
-    return (key, list(kids))
+def G(key, *kids, lv=0):
+    """a group attribute (one INSTANCE: two G("g", ..) in one list are two attributes with one key);
+    lv > 0: a LogValuer that resolves (after lv rounds) to the group"""
+    return dict(key=key, lv=lv, g=True, k="", v=0, kids=list(kids))
 
 
-def flatten(tree, path=(), ords=()):
-    """Tree -> leaves [p, k, v, o]: p keys from the outermost group to the leaf, o the 1-based positions
-    of the same nodes in the lists they were given in."""
+def flatten(tree, path=(), ords=(), ws=()):
+    """Tree -> leaves [p, k, v, o, w] (mirrors Adapter!Leaves): p keys from the outermost group to the
+    leaf, o the 1-based positions of the same nodes in the lists they were given in, w their lv."""
     out = []
     for i, node in enumerate(tree, 1):
-        if len(node) == 3:
-            out.append(dict(p=list(path) + [node[0]], k=node[1], v=node[2], o=list(ords) + [i]))
+        p, o, w = list(path) + [node["key"]], list(ords) + [i], list(ws) + [node["lv"]]
+        if node["g"]:
+            out += flatten(node["kids"], p, o, w)
         else:
-            out += flatten(node[1], tuple(path) + (node[0],), tuple(ords) + (i,))
+            out.append(dict(p=p, k=node["k"], v=node["v"], o=o, w=w))
     return out
 
 
-def shape(tree, valuers=()):
-    return dict(leaves=flatten(tree), valuers=list(valuers), tree=tree)
+def valuer_classes(tree, anc=()):
+    """mirrors Adapter!ValuerClasses"""
+    res = set()
+    for node in tree:
+        if node["lv"]:
+            ctx = "top" if not anc else "lit" if not any(anc) else "val" if anc[-1] else "val-lit"
+            res.add("%s%s@%s" % ("group" if node["g"] else "leaf", "-chain" if node["lv"] >= 2 else "", ctx))
+        if node["g"]:
+            res |= valuer_classes(node["kids"], tuple(anc) + (node["lv"],))
+    return res
+
+
+def shape(tree):
+    return dict(leaves=flatten(tree), tree=tree, vclasses=sorted(valuer_classes(tree)))
 
 
 def base_shapes():
-    """Hand-written attribute shapes: every log/slog kind, nesting to depth 3, LogValuers (scalar,
-    chained, group-valued), a wide record.  Groups sort last on every level, where the library's
-    logfmt/colored encoders print full dotted keys (an encoder, not an adapter, limitation).
-    The last three record shapes and the last derivation shape exist for their EQUAL KEYS: with the
-    derivation shapes (top level, inside zd, inside a WithGroup("G") group), with the group name G
-    itself, and within one list (two leaves u, two groups zd)."""
+    """Hand-written attribute shapes: every log/slog kind, nesting to depth 3, a wide record, equal keys,
+    LogValuers at every position.  Groups sort last on every level, where the library's logfmt/colored
+    encoders print full dotted keys (an encoder, not an adapter, limitation).
+    Record shapes 7-9 and derivation shape 3 exist for their EQUAL KEYS: with the derivation shapes
+    (top level, inside zd, inside a WithGroup("G") group), with the group name G itself, and within
+    one list (two leaves u, two groups zd).
+    Record shapes 10-13 and derivation shapes 4-5 exist for their LOGVALUERS; each of the two sets
+    contains all 16 positions of VALUER_CLASSES (shape 10 = the classic User -> Group(id, home:
+    Address) with Address a LogValuer again)."""
     rec = [
         shape([]),
         shape([L("a", "bool", 1), L("b", "int", 1), L("c", "big", 1), L("d", "uint", 1), L("e", "float", 1), L("f", "str", 1),
-               L("g", "dur", 1), L("h", "time", 1), L("i", "any", 1), L("j", "err", 1), L("k", "valuer", 1), L("l", "valuer", 2)]),
+               L("g", "dur", 1), L("h", "time", 1), L("i", "any", 1), L("j", "err", 1), L("k", "str", 5, lv=2), L("l", "str", 6, lv=1)]),
         shape([L("x", "int", 2), G("zg", L("a", "str", 2), G("zh", L("b", "big", 2), G("zi", L("c", "bool", 0), L("d", "float", 2))))]),
-        shape([L("y", "uint", 2), G("zv", L("n", "int", 3), L("s", "str", 3)), G("zw", G("zq", L("u", "dur", 2)))], ["zv", "zw.zq"]),
+        shape([L("y", "uint", 2), G("zv", L("n", "int", 3), L("s", "str", 3), lv=1), G("zw", G("zq", L("u", "dur", 2), lv=1))]),
         shape([L("k%02d" % i, ["int", "str", "float", "big", "uint"][i % 5], 10 + i) for i in range(14)]),
         shape([G("ga", L("x", "int", 4)), L("m", "str", 4), L("n", "time", 2)]),
         shape([L("da", "float", 60), L("dq", "int", 61), G("zd", L("dx", "str", 62), L("dz", "int", 63)), L("da", "big", 64)]),
         shape([G("G", L("da", "int", 65), L("u", "str", 68)), L("db", "dur", 66), L("dd", "str", 67)]),
         shape([L("u", "int", 69), L("u", "str", 70), G("zd", L("dx", "float", 71)), G("zd", L("dy", "int", 72))]),
+        # 10: leaf@top, leaf-chain@top (2 and 3 rounds), group@top, leaf@val
+        shape([L("ua", "int", 80, lv=1), L("ub", "time", 81, lv=2), L("uc", "float", 82, lv=3),
+               G("zu", L("id", "uint", 83), L("home", "str", 84, lv=1), lv=1)]),
+        # 11: LogValuers as members of a literal group: leaf@lit, leaf-chain@lit, group@lit (+ leaf@val), group-chain@lit
+        shape([L("va", "str", 85), G("zl", L("la", "dur", 86, lv=1), L("lb", "big", 87, lv=2), G("zm", L("ma", "bool", 1, lv=1), lv=1),
+                                     G("zn", L("na", "int", 88), lv=2))]),
+        # 12: a LogValuer (2 rounds) -> group containing a literal group containing LogValuers: group-chain@top, *@val-lit
+        shape([G("zw", L("wa", "int", 89), G("zx", L("xa", "str", 90, lv=1), L("xb", "err", 91, lv=2), G("zy", L("ya", "any", 92), lv=1),
+                                              G("zz", L("yb", "int", 93), lv=2)), lv=2)]),
+        # 13: three LogValuers inside one another: group@val, leaf-chain@val, group-chain@val
+        shape([G("zp", L("pa", "float", 94, lv=2), G("zq", L("qa", "str", 95, lv=1), G("zr", L("ra", "int", 96, lv=1), lv=1), lv=1),
+                 G("zs", L("sa", "uint", 97), lv=3), lv=1)]),
     ]
     deriv = [
         shape([L("da", "int", 50), L("db", "str", 50)]),
-        shape([G("zd", L("dx", "float", 51)), L("dc", "valuer", 51)]),
+        shape([G("zd", L("dx", "float", 51)), L("dc", "str", 56, lv=2)]),
         shape([L("da", "str", 52), G("G", L("da", "int", 53)), L("dd", "int", 54), L("dd", "uint", 55)]),
+        # 4: *@top (but group-chain), *@val (but leaf-chain), *@val-lit
+        shape([L("ea", "int", 100, lv=1), L("eb", "str", 101, lv=2),
+               G("ze", L("ec", "uint", 102), L("ed", "time", 103, lv=1),
+                 G("zf", L("ee", "float", 104, lv=1), L("ef", "dur", 112, lv=2), G("zg", L("eg", "int", 113), lv=1), G("zh", L("eh", "int", 114), lv=2)),
+                 G("zi", L("ei", "str", 115), lv=1), G("zj", L("ej", "str", 116), lv=2), lv=1)]),
+        # 5: *@lit, group-chain@top, leaf-chain@val
+        shape([G("zk", L("ja", "big", 105, lv=1), L("jb", "str", 106, lv=2), G("zl", L("ka", "int", 107), lv=1), G("zm", L("kc", "bool", 0), lv=2)),
+               G("zo", L("oa", "err", 108, lv=3), L("ob", "any", 109), lv=2)]),
     ]
+    for name, shs in (("record", rec), ("derivation", deriv)):
+        have = set(c for sh in shs for c in sh["vclasses"])
+        if have != set(VALUER_CLASSES):
+            raise Undecided("base %s shapes lack LogValuer positions %s" % (name, sorted(set(VALUER_CLASSES) - have)))
     return rec, deriv
 
 
@@ -157,28 +210,49 @@ def handle_cells(n_shapes, full):
     return cells
 
 
+N_PLAIN_REC, N_PLAIN_DERIV = 9, 3           # base shapes behind these exist for their LogValuers (see base_shapes)
+
+
 def mc_configs(ctx, cat):
     """Exhaustive configurations: name -> constants.  The cell space of the property is
     set-up x derivation history x probe; `wide` has every set-up with short histories and all probes,
-    `deep` fewer set-ups with derivation trees."""
+    `deep` fewer set-ups with derivation trees, `lv` the LogValuer shapes: every output format x
+    derivation chains made of the LogValuer derivation shapes and WithGroup x records with LogValuers
+    at every position (Adapter!ValuerCover)."""
     n_opts = len(cat["opts"])
     n_sh = len(cat["rec_shapes"])
+    lv_rec = [2, 4] + list(range(N_PLAIN_REC + 1, n_sh + 1))
+    lv_deriv = set(range(N_PLAIN_DERIV + 1, len(cat["deriv_shapes"]) + 1))
+    plain_deriv = set(range(1, N_PLAIN_DERIV + 1))
     cfgs = {}
     if ctx.quick():
         roots = [dict(L=L, oi=1) for L in range(9)] + [dict(L=[TRACE, WARN][k % 2], oi=oi) for oi in range(2, n_opts + 1) for k in range(2)]
         bridges = [dict(L=L, sev=s, f=["json", "logfmt", "color"][(L + s) % 3]) for L in range(9) for s in range(12)]
-        cfgs["mc"] = dict(Roots=roots, MaxHandlers=3, DeriveFromAny=False, ProbeAll=False,
-                          HandleCells=handle_cells(n_sh, False), BridgeCfgs=bridges, GroupNames={"G"})
+        cells = handle_cells(N_PLAIN_REC, False) + [dict(v=[0, 8][sh % 2], sh=sh, via=["rec", "logger"][sh % 2], t=[sh + 10, 0][sh % 2], mi=3)
+                                                    for sh in range(N_PLAIN_REC + 1, n_sh + 1)]
+        cfgs["mc"] = dict(Roots=roots, MaxHandlers=3, DeriveFromAny=False, ProbeAll=False, DerivOffered=plain_deriv,
+                          HandleCells=cells, BridgeCfgs=bridges, GroupNames={"G"})
+        cfgs["lv"] = dict(Roots=[dict(L=TRACE, oi=1), dict(L=TRACE, oi=2), dict(L=DEBUG, oi=3), dict(L=WARN, oi=4)],
+                          MaxHandlers=3, DeriveFromAny=False, ProbeAll=False, DerivOffered=lv_deriv, GroupNames={"G"}, BridgeCfgs=[],
+                          HandleCells=[dict(v=v, sh=sh, via=via, t=0 if via == "logger" else sh, mi=1 + sh % 3)
+                                       for sh in lv_rec for (v, via) in ((0, "rec"), (4, "logger"))],
+                          NeedValuerClasses=VALUER_CLASSES)
         cfgs["reg"] = reg_config(cat, [dict(L=TRACE, oi=1), dict(L=WARN, oi=3), dict(L=INFO, oi=2)],
                                  [TRACE, WARN, ERROR, ALWAYS], 2)
     else:
         roots = [dict(L=L, oi=oi) for L in range(9) for oi in range(1, n_opts + 1)]
         bridges = [dict(L=L, sev=s, f=f) for L in range(9) for s in range(12) for f in ("json", "logfmt", "color")]
-        cfgs["wide"] = dict(Roots=roots, MaxHandlers=2, DeriveFromAny=False, ProbeAll=True,
-                            HandleCells=handle_cells(n_sh, True), BridgeCfgs=bridges, GroupNames={"G", "H"})
+        cfgs["wide"] = dict(Roots=roots, MaxHandlers=2, DeriveFromAny=False, ProbeAll=True, DerivOffered=plain_deriv,
+                            HandleCells=handle_cells(N_PLAIN_REC, True), BridgeCfgs=bridges, GroupNames={"G", "H"})
         deep_roots = [dict(L=L, oi=oi) for (L, oi) in [(TRACE, 2), (INFO, 4), (DEBUG, 7), (WARN, 12), (ALWAYS, 21), (ERROR, 30), (OFF, 3), (TRACE, 40)]]
-        cfgs["deep"] = dict(Roots=deep_roots, MaxHandlers=4, DeriveFromAny=True, ProbeAll=True,
-                            HandleCells=handle_cells(n_sh, False), BridgeCfgs=[], GroupNames={"G"})
+        cfgs["deep"] = dict(Roots=deep_roots, MaxHandlers=4, DeriveFromAny=True, ProbeAll=True, DerivOffered=plain_deriv,
+                            HandleCells=handle_cells(N_PLAIN_REC, False), BridgeCfgs=[], GroupNames={"G"})
+        # opts 1..8 = every (nocolor, nosource, json) combination with the level left alone
+        cfgs["lv"] = dict(Roots=[dict(L=L, oi=oi) for L in (TRACE, INFO) for oi in range(1, 9)],
+                          MaxHandlers=4, DeriveFromAny=False, ProbeAll=False, DerivOffered=lv_deriv, GroupNames={"G", "H"}, BridgeCfgs=[],
+                          HandleCells=[dict(v=v, sh=sh, via=via, t=0 if via == "logger" else sh + v + 4, mi=1 + (sh + v) % 3)
+                                       for sh in lv_rec for v in (-4, 0, 4, 8) for via in ("logger", "rec")],
+                          NeedValuerClasses=VALUER_CLASSES)
         cfgs["reg"] = reg_config(cat, [dict(L=TRACE, oi=2), dict(L=WARN, oi=4), dict(L=INFO, oi=7), dict(L=DEBUG, oi=12),
                                        dict(L=ERROR, oi=21), dict(L=ALWAYS, oi=30)],
                                  [TRACE, DEBUG, INFO, WARN, ERROR, OFF, ALWAYS], 2)
@@ -200,13 +274,16 @@ def reg_config(cat, roots, bridge_levels, max_regs):
     sevs = [INFO, WARN, DEBUG, 9] + [c["val"] for c in cat["regcells"]]
     bridges = [dict(L=L, sev=sv, f=["json", "logfmt", "color"][(i + j) % 3]) for i, L in enumerate(bridge_levels) for j, sv in enumerate(sevs)]
     return dict(Roots=roots, MaxHandlers=2, DeriveFromAny=False, ProbeAll=False, HandleCells=cells, BridgeCfgs=bridges,
-                GroupNames={"G"}, RegCells=cat["regcells"], MaxRegs=max_regs)
+                DerivOffered=set(range(1, N_PLAIN_DERIV + 1)), GroupNames={"G"}, RegCells=cat["regcells"], MaxRegs=max_regs)
 
 
 def tlc_consts(cat, c, trace=False):
     k = dict(
         Roots=c.get("Roots", []), Opts=cat["opts"], SlogLevels=set(SLOG_LEVELS),
-        RecShapes=[s["leaves"] for s in cat["rec_shapes"]], DerivShapes=[s["leaves"] for s in cat["deriv_shapes"]],
+        RecTrees=[s["tree"] for s in cat["rec_shapes"]], DerivTrees=[s["tree"] for s in cat["deriv_shapes"]],
+        RecLeaves=[flatten(s["tree"]) for s in cat["rec_shapes"]], DerivLeaves=[flatten(s["tree"]) for s in cat["deriv_shapes"]],
+        NeedValuerClasses=set(c.get("NeedValuerClasses", [])),
+        DerivOffered=set(c.get("DerivOffered", range(1, len(cat["deriv_shapes"]) + 1))),
         GroupNames=set(c.get("GroupNames", {"G"})), HandleCells=c.get("HandleCells", []), HMsgs=cat["hmsgs"],
         BridgeCfgs=c.get("BridgeCfgs", []), BMsgs=cat["bmsgs"], Deviations=set(c.get("Deviations", [])),
         RegCells=[dict(val=r["val"], treat=r["treat"], err=r["err"]) for r in c.get("RegCells", [])],
@@ -324,7 +401,7 @@ def run_mc(ctx, cat, name, c):
     per_action = {}
     for e in evs:
         per_action[e["op"]] = per_action.get(e["op"], 0) + 1
-    need = {"NewHandler", "WithAttrs", "WithGroup", "Enabled", "Handle", "EntryLog"} | ({"NewBridge", "Bridge"} if c["BridgeCfgs"] else set()) \
+    need = {"NewHandler", "WithAttrs", "WithGroup", "Enabled", "Handle", "EntryLog"} | ({"NewBridge", "Bridge"} if c.get("BridgeCfgs") else set()) \
         | ({"Register"} if c.get("RegCells") else set())
     if need - set(per_action):
         raise Undecided("vacuous exploration: no edge for %s" % sorted(need - set(per_action)))
@@ -345,7 +422,7 @@ def run_witnesses(ctx, cat):
         k, plain = tlc_consts(cat, dict(c, Deviations=[dev]))
         mc, cfg = gen_mc("MCW", "Adapter", k, ["INIT Init", "NEXT Next", "CHECK_DEADLOCK FALSE", "INVARIANTS " + " ".join(INVARIANTS)], plain=plain)
         r = ctx.tlc("MCW", "MCW.cfg", files={"MCW.tla": mc, "MCW.cfg": cfg}, name="witness-" + dev, allow_fail=True, workers=2, timeout=300)
-        if inv not in r.invariant_violated:
+        if not set(inv.split()) & set(r.invariant_violated):
             raise Undecided("witness run: deviation %s did not violate %s (violated: %s)\n%s" % (dev, inv, r.invariant_violated, r.out[-2000:]))
         res[dev] = inv
     ctx.extra["witness_invariant_failures"] = res
@@ -353,58 +430,61 @@ def run_witnesses(ctx, cat):
 
 # ------------------------------------------------------------------ seeded random behaviours
 
-KINDS = ["bool", "int", "big", "uint", "float", "str", "dur", "time", "any", "err", "valuer"]
+KINDS = ["bool", "int", "big", "uint", "float", "str", "dur", "time", "any", "err"]
 
 
-def random_tree(rng, next_id, prefix, groups_last=True):
-    """A random attribute tree, depth <= 3, unique keys, unique (kind, id) values."""
-    valuers = []
+def random_tree(rng, next_id, prefix, groups_last=True, p_lv=0.25):
+    """A random attribute tree, depth <= 3, unique keys, unique (kind, id) values; every node is a
+    LogValuer with probability p_lv (1, 2 or 3 rounds)."""
+    def rlv():
+        return rng.choice([1, 1, 1, 2, 2, 3]) if rng.random() < p_lv else 0
 
     def rleaf(key):
         kind = rng.choice(KINDS)
-        return L(key, kind, rng.randint(0, 1) if kind == "bool" else next_id())
+        return L(key, kind, rng.randint(0, 1) if kind == "bool" else next_id(), lv=rlv())
 
-    def level(path, depth, budget):
+    def level(depth, budget):
         nodes = [rleaf("%s%d%s" % (prefix, depth, "abcdef"[i])) for i in range(rng.randint(0 if depth else 1, 3))]
         if depth < 3 and budget > 0:
             for j in range(rng.randint(0, 2)):
                 key = ("z" if groups_last else "A") + "%s%d%s" % (prefix, depth, "pqr"[j])
-                kids = level(path + [key], depth + 1, budget - 1)
+                kids = level(depth + 1, budget - 1)
                 if not kids:                   # no empty groups (log/slog omits them)
-                    kids = [L("%se" % prefix, "int", next_id())]
-                nodes.append(G(key, *kids))
-                if rng.random() < 0.3:
-                    valuers.append(".".join(path + [key]))
+                    kids = [L("%se" % prefix, "int", next_id(), lv=rlv())]
+                nodes.append(G(key, *kids, lv=rlv()))
         return nodes
-    return level([], 0, 2), valuers
+    return level(0, 2)
 
 
 def collider(rng, next_id, tree, prefix, group_names):
     """A tree whose keys collide with `tree` (another shape) level by level - same key, new kind and
-    value; a group may be met by a group or by a leaf - plus keys equal to WithGroup names, a key of
-    its own, and now and then one of its own keys twice."""
+    value, LogValuer or not independently of the original; a group may be met by a group or by a leaf -
+    plus keys equal to WithGroup names, a key of its own, and now and then one of its own keys twice."""
+    def rlv():
+        return rng.choice([1, 1, 2, 3]) if rng.random() < 0.25 else 0
+
     def level(nodes, depth):
         out = []
         for node in nodes:
             if rng.random() < 0.35:
                 continue
             kind = rng.choice(KINDS)
-            if len(node) == 3 or rng.random() < 0.2:
-                out.append(L(node[0], kind, rng.randint(0, 1) if kind == "bool" else next_id()))
+            if not node["g"] or rng.random() < 0.2:
+                out.append(L(node["key"], kind, rng.randint(0, 1) if kind == "bool" else next_id(), lv=rlv()))
             else:
-                kids = level(node[1], depth + 1) or [L("%se%d" % (prefix, depth), "int", next_id())]
-                out.append(G(node[0], *kids))
+                kids = level(node["kids"], depth + 1) or [L("%se%d" % (prefix, depth), "int", next_id())]
+                out.append(G(node["key"], *kids, lv=rlv()))
         out.append(L("%so%d" % (prefix, depth), "str", next_id()))
         if out and rng.random() < 0.4:           # an equal key inside this very list (a later instance)
             twin = rng.choice(out)
-            out.append(L(twin[0], "int", next_id()) if len(twin) == 3 or rng.random() < 0.5
-                       else G(twin[0], L("%st%d" % (prefix, depth), "uint", next_id())))
+            out.append(L(twin["key"], "int", next_id(), lv=rlv()) if not twin["g"] or rng.random() < 0.5
+                       else G(twin["key"], L("%st%d" % (prefix, depth), "uint", next_id()), lv=rlv()))
         return out
     res = level(tree, 0)
     if rng.random() < 0.5:                       # the name of a WithGroup group, as a leaf or as a group
         g = rng.choice(group_names)
-        inner = [L(n[0], "int", next_id()) for n in tree if len(n) == 3][:2] or [L("%sg" % prefix, "int", next_id())]
-        res.insert(rng.randint(0, len(res)), L(g, "str", next_id()) if rng.random() < 0.4 else G(g, *inner))
+        inner = [L(n["key"], "int", next_id()) for n in tree if not n["g"]][:2] or [L("%sg" % prefix, "int", next_id())]
+        res.insert(rng.randint(0, len(res)), L(g, "str", next_id(), lv=rlv()) if rng.random() < 0.4 else G(g, *inner, lv=rlv()))
     return res
 
 
@@ -417,10 +497,11 @@ def random_part(ctx, cat, count, depth):
         ids[0] += 1
         return ids[0]
     groups = ["G", "H", "K", "zz"]
+    # every other random shape is LogValuer-heavy (most nodes are LogValuers, so most of them nest)
     for i in range(8 if ctx.quick() else 30):
-        cat["rec_shapes"].append(shape(*random_tree(rng, next_id, "r%d" % i, groups_last=(i % 4 != 3))))
+        cat["rec_shapes"].append(shape(random_tree(rng, next_id, "r%d" % i, groups_last=(i % 4 != 3), p_lv=[0.2, 0.7][i % 2])))
     for i in range(4 if ctx.quick() else 12):
-        cat["deriv_shapes"].append(shape(*random_tree(rng, next_id, "w%d" % i)))
+        cat["deriv_shapes"].append(shape(random_tree(rng, next_id, "w%d" % i, p_lv=[0.7, 0.2][i % 2])))
     # colliders: per derivation shape two record shapes and one derivation shape with its keys
     n_der = len(cat["deriv_shapes"])
     rec_vs, der_vs = {}, {}                    # derivation shape index (1-based) -> colliding shape indices
@@ -521,7 +602,7 @@ def random_part(ctx, cat, count, depth):
 def execute(ctx, cat, behaviours, tag):
     script = dict(cat, behaviours=behaviours)
     for key in ("rec_shapes", "deriv_shapes"):
-        script[key] = [dict(leaves=sh["leaves"], valuers=sh["valuers"]) for sh in script[key]]
+        script[key] = [dict(tree=sh["tree"]) for sh in script[key]]
     sp = os.path.join(ctx.scratch, "script-%s.json" % tag)
     with open(sp, "w") as fh:
         json.dump(script, fh)
@@ -602,6 +683,8 @@ def account(ctx, cat, script, rows, bad, sources):
     seen = set()
     memo = ctx.extra.setdefault("_ek_memo", {})
     ek = ctx.extra.setdefault("equal_key_records", dict(hr=0, hh=0, rr=0, cells=set()))
+    vp = ctx.extra.setdefault("logvaluer_positions_emitted", {w + c: 0 for w in ("rec:", "rec-under-group:", "given:", "given-under-group:")
+                                                              for c in VALUER_CLASSES})
     for bi, s in enumerate(starts):
         hist = []
         chains = [None, ()]
@@ -620,6 +703,16 @@ def account(ctx, cat, script, rows, bad, sources):
                 for cls in equal_key_classes(cat, chains[r["h"]], r["sh"], memo):
                     ek[cls] += 1
                     ek["cells"].add((chains[r["h"]], r["sh"], cls))
+                # LogValuer positions that were really emitted: in the record / given to WithAttrs, under WithGroup or not
+                grouped = False
+                for (op, x) in chains[r["h"]]:
+                    if op == "g":
+                        grouped = True
+                    else:
+                        for cls in cat["deriv_shapes"][x - 1]["vclasses"]:
+                            vp[("given-under-group:" if grouped else "given:") + cls] += 1
+                for cls in cat["rec_shapes"][r["sh"] - 1]["vclasses"]:
+                    vp[("rec-under-group:" if grouped else "rec:") + cls] += 1
             if r["op"] == "Enabled" or (r["op"] in ("Handle", "EntryLog", "Bridge") and r.get("recs")):
                 seen.add((tuple(hist), json.dumps({k: v for k, v in r.items() if k in ("op", "h", "v", "sh", "via", "mi", "direct")}, sort_keys=True)))
     ctx.extra.setdefault("nontrivial_keys", set()).update(seen)
@@ -674,9 +767,14 @@ def run(ctx, replay):
     # seeded random behaviours over the catalogue extended with random shapes (a superset, so the
     # edge cover and the random part are executed and validated together)
     rb = random_part(ctx, cat, 40 if ctx.quick() else 1000, 30 if ctx.quick() else 60)
-    tagged = [("edge-cover", b) for b in behaviours] + [("random", b) for b in rb]
+    # random behaviours (bigger shapes, longer chains: costlier to validate per line) are spread evenly over
+    # the cover behaviours, so that the chunks below cost about the same
+    tagged = [("edge-cover", b) for b in behaviours]
+    stride = len(tagged) / float(len(rb)) if rb else 0
+    for j in reversed(range(len(rb))):
+        tagged.insert(int(j * stride), ("random", rb[j]))
     # independent chunks: each is executed by its own worker process and validated by its own TLC
-    k = 3 if ctx.quick() else 8
+    k = 4 if ctx.quick() else 8
     size = sum(len(b) for _, b in tagged) // k + 1
     chunks, cur, n = [], [], 0
     for t in tagged:
@@ -706,12 +804,16 @@ def run(ctx, replay):
     ek["cells"] = len(ek["cells"])
     if not (ek["hr"] and ek["hh"] and ek["rr"]):
         raise Undecided("vacuous: no record with equal keys of some class was emitted: %s" % ek)
+    lacking = sorted(k for k, n in ctx.extra["logvaluer_positions_emitted"].items() if not n)
+    if lacking:
+        raise Undecided("vacuous: no record was emitted with a LogValuer at %s" % lacking)
     ctx.extra["cover_behaviours"] = n_cover
     ctx.extra["random_behaviours"] = len(rb)
     ctx.extra["trace_events"] = n_rows
     ctx.assumptions += [
         "records are decoded by the harness's own scanners (lenient JSON object scanner, logfmt tokenizer, SGR stripper) plus encoding/json, strconv and time.Parse; the library's encoders' own defects (C04/C05: bare group markers in JSON, keys lost after a group in logfmt) are tolerated: a leaf is accepted with its full nested/dotted path, with bare group markers naming its groups, or - when the encoder printed no key at all - by its unique value",
-        "value fidelity is checked on concrete representatives per kind drawn per seed (int64 beyond 2^32, uint64 beyond 2^63, fractional float, duration, time with zone and nanoseconds, struct, error, LogValuer chains); rendering as number or exact string both accepted",
+        "value fidelity is checked on concrete representatives per kind drawn per seed (int64 beyond 2^32, uint64 beyond 2^63, fractional float, duration, time with zone and nanoseconds, struct, error - each also as what a LogValuer resolves to); rendering as number or exact string both accepted",
+        "LogValuers: every node of an attribute tree (leaf or group; at top level, inside literal groups, inside the group another LogValuer resolved to, deeper) may be handed over as a LogValuer that has to be asked 1-3 times; expected are the leaves of the tree with every LogValuer resolved at every depth (what log/slog's own handlers print). OUT OF SCOPE: a LogValuer whose LogValue() panics or that resolves to LogValuers without end (log/slog substitutes an error value after 100 rounds) - it has no resolved form to compare with; LogValuers hidden inside values of kind Any (struct fields, slices, []slog.Attr) are Go data, not attributes",
         "the worker runs in testing mode with LnoInterrupt so that a terminating mapping shows as a record at Fatal/Panic severity instead of killing the process",
         "in colored mode only the first line of a message is compared",
         "extra attributes in a record are not an error (the statement demands that all given ones are present)",
@@ -720,8 +822,8 @@ def run(ctx, replay):
         "a log/slog level other than the four standard ones may be mapped to any non-terminating built-in or registered severity (the statement only fixes the namesakes and excludes terminating severities)",
     ]
     return ctx.finish(rule="every edge of the exhaustive Adapter graph(s) (registrations x set-up x derivation history x probe: Enabled/Handle/"
-                           "Entry.Log/bridge writes; shapes with equal keys included) executed on the library - one process per behaviour "
+                           "Entry.Log/bridge writes; shapes with equal keys and shapes with LogValuers at each of the 16 positions included) executed on the library - one process per behaviour "
                            "that registers levels - and validated by TLC against AdapterTrace, plus seeded random behaviours (colliding "
-                           "shapes, registrations at random places); non-trivial = distinct (registrations, set-up and derivation history, "
+                           "shapes, shapes whose nodes are LogValuers with probability 0.2 / 0.7, registrations at random places); non-trivial = distinct (registrations, set-up and derivation history, "
                            "probe) pairs where a record was emitted or Enabled was asked",
                       exhaustive=True)
